@@ -71,8 +71,40 @@ impl HLts {
     }
 }
 
+/// async handles driven through the std traits by blocking on every call (the async port's write
+/// handles are Write only: seeking them is not part of the API)
+struct BlockingReader(Box<dyn vfs::async_vfs::SeekAndRead + Send + Unpin>);
+impl Read for BlockingReader {
+    fn read(&mut self, buf: &mut [u8]) -> std::io::Result<usize> {
+        futures::executor::block_on(async_std::io::ReadExt::read(&mut self.0, buf))
+    }
+}
+impl Seek for BlockingReader {
+    fn seek(&mut self, pos: SeekFrom) -> std::io::Result<u64> {
+        futures::executor::block_on(async_std::io::prelude::SeekExt::seek(&mut self.0, pos))
+    }
+}
+struct BlockingWriter(Box<dyn async_std::io::Write + Send + Unpin>);
+impl Write for BlockingWriter {
+    fn write(&mut self, buf: &[u8]) -> std::io::Result<usize> {
+        futures::executor::block_on(async_std::io::WriteExt::write(&mut self.0, buf))
+    }
+    fn flush(&mut self) -> std::io::Result<()> {
+        futures::executor::block_on(async_std::io::WriteExt::flush(&mut self.0))
+    }
+}
+impl Seek for BlockingWriter {
+    fn seek(&mut self, _pos: SeekFrom) -> std::io::Result<u64> {
+        Err(std::io::Error::new(std::io::ErrorKind::Other, "async write handles cannot seek"))
+    }
+}
+
+enum Target {
+    Sync(World),
+    Async(crate::aworld::AWorld),
+}
 struct Ctx {
-    w: World,
+    w: Target,
     cx: Conc,
     path: Vec<String>,
     wh: Option<Box<dyn SeekAndWrite + Send>>,
@@ -88,16 +120,61 @@ fn io_cls<T>(r: Result<std::io::Result<T>, ()>) -> (&'static str, Option<T>) {
 }
 
 impl Ctx {
-    fn target(&self) -> VfsPath {
-        self.cx.path(&self.w.root, &self.path)
+    fn open_w(&self, append: bool) -> Result<VfsResult<Box<dyn SeekAndWrite + Send>>, ()> {
+        match &self.w {
+            Target::Sync(w) => {
+                let p = self.cx.path(&w.root, &self.path);
+                guard(|| if append { p.append_file() } else { p.create_file() })
+            }
+            Target::Async(w) => {
+                let p = crate::aworld::apath(&self.cx, &w.root, &self.path);
+                guard(|| w.rt.block_on(async { if append { p.append_file().await } else { p.create_file().await } }).map(|h| Box::new(BlockingWriter(h)) as Box<dyn SeekAndWrite + Send>))
+            }
+        }
     }
-    fn fresh(&self) -> Value {
-        let p = self.target();
-        let len = match guard(|| p.metadata()) {
+    fn open_r(&self) -> Result<VfsResult<Box<dyn SeekAndRead + Send>>, ()> {
+        match &self.w {
+            Target::Sync(w) => {
+                let p = self.cx.path(&w.root, &self.path);
+                guard(|| p.open_file())
+            }
+            Target::Async(w) => {
+                let p = crate::aworld::apath(&self.cx, &w.root, &self.path);
+                guard(|| w.rt.block_on(p.open_file()).map(|h| Box::new(BlockingReader(h)) as Box<dyn SeekAndRead + Send>))
+            }
+        }
+    }
+    fn remove(&self) -> Result<VfsResult<()>, ()> {
+        match &self.w {
+            Target::Sync(w) => {
+                let p = self.cx.path(&w.root, &self.path);
+                guard(|| p.remove_file())
+            }
+            Target::Async(w) => {
+                let p = crate::aworld::apath(&self.cx, &w.root, &self.path);
+                guard(|| w.rt.block_on(p.remove_file()))
+            }
+        }
+    }
+    fn md_len(&self) -> i64 {
+        let r = match &self.w {
+            Target::Sync(w) => {
+                let p = self.cx.path(&w.root, &self.path);
+                guard(|| p.metadata())
+            }
+            Target::Async(w) => {
+                let p = crate::aworld::apath(&self.cx, &w.root, &self.path);
+                guard(|| w.rt.block_on(p.metadata()))
+            }
+        };
+        match r {
             Ok(Ok(m)) => abs_len(m.len, self.cx.b),
             _ => -2,
-        };
-        match guard(|| p.open_file()) {
+        }
+    }
+    fn fresh(&self) -> Value {
+        let len = self.md_len();
+        match self.open_r() {
             Err(()) => json!({"c":"panic","v":[],"len":len}),
             Ok(Err(e)) => json!({"c":class_of(&e),"v":[],"len":len}),
             Ok(Ok(mut h)) => {
@@ -131,29 +208,22 @@ impl Ctx {
             Ok(Ok(())) => "ok".to_string(),
         };
         match op {
-            "open_create" | "open_append" => {
-                let p = self.target();
-                let r = guard(|| if op == "open_create" { p.create_file() } else { p.append_file() });
-                match r {
-                    Err(()) => ("panic".into(), json!([])),
-                    Ok(Err(e)) => (class_of(&e).into(), json!([])),
-                    Ok(Ok(h)) => {
-                        self.wh = Some(h);
-                        ("ok".into(), json!([]))
-                    }
+            "open_create" | "open_append" => match self.open_w(op == "open_append") {
+                Err(()) => ("panic".into(), json!([])),
+                Ok(Err(e)) => (class_of(&e).into(), json!([])),
+                Ok(Ok(h)) => {
+                    self.wh = Some(h);
+                    ("ok".into(), json!([]))
                 }
-            }
-            "open_read" => {
-                let p = self.target();
-                match guard(|| p.open_file()) {
-                    Err(()) => ("panic".into(), json!([])),
-                    Ok(Err(e)) => (class_of(&e).into(), json!([])),
-                    Ok(Ok(h)) => {
-                        self.rh = Some(h);
-                        ("ok".into(), json!([]))
-                    }
+            },
+            "open_read" => match self.open_r() {
+                Err(()) => ("panic".into(), json!([])),
+                Ok(Err(e)) => (class_of(&e).into(), json!([])),
+                Ok(Ok(h)) => {
+                    self.rh = Some(h);
+                    ("ok".into(), json!([]))
                 }
-            }
+            },
             "write" => {
                 let bytes = conc_bytes(&o["c"].as_array().unwrap().iter().map(|x| x.as_i64().unwrap()).collect::<Vec<_>>(), b);
                 let h = self.wh.as_mut().unwrap();
@@ -273,10 +343,7 @@ impl Ctx {
                 }
                 (cls.into(), json!(abs_bytes(&buf[..got], b)))
             }
-            "remove" => {
-                let p = self.target();
-                (vfs_cls(guard(|| p.remove_file())), json!([]))
-            }
+            "remove" => (vfs_cls(self.remove()), json!([])),
             other => panic!("unknown handle op {other}"),
         }
     }
@@ -293,10 +360,13 @@ pub struct HOpts {
     pub lower_file: bool, // overlay: the file starts in the lower layer (copy-up sessions)
     pub extreme: bool,    // end walks with an extreme-offset seek (C13)
     pub depth: usize,     // the file lives at depth 1 or 2
+    pub no_zero_read: bool, // avoid-rule of a known finding: skip zero-length reads
 }
 
 pub fn run(lts: &HLts, o: &HOpts) -> Value {
-    let term = parse(&o.cfg);
+    let is_async = o.cfg.starts_with("async:");
+    let base_cfg = o.cfg.strip_prefix("async:").unwrap_or(&o.cfg).to_string();
+    let term = parse(&base_cfg);
     let phys = term.has_phys();
     let mut rng = StdRng::seed_from_u64(o.seed);
     let mut out = crate::lts::TraceOut::new(&o.out, &format!("h-{}-{}-{}", o.cfg.chars().map(|c| if c.is_ascii_alphanumeric() { c } else { '_' }).collect::<String>(), o.names, o.b));
@@ -305,31 +375,40 @@ pub fn run(lts: &HLts, o: &HOpts) -> Value {
     let mut fast_bad = 0u64;
     let init_idx = lts.index[&lts.states[0].to_string()];
     for _w in 0..o.walks {
-        let w = build(&o.cfg);
         let cx = Conc::new(&o.names, o.b);
         let path: Vec<String> = if o.depth == 2 { vec!["a".into(), "b".into()] } else { vec!["a".into()] };
         let mut cur = init_idx;
         let mut file0 = json!({"ex":false,"d":[]});
-        // parent directory / lower-layer file
-        if o.depth == 2 {
+        let w = if is_async {
+            let aw = crate::aworld::abuild(&base_cfg, false);
+            if o.depth == 2 {
+                aw.rt.block_on(crate::aworld::apath(&cx, &aw.root, &path[..1].to_vec()).create_dir()).unwrap();
+            }
+            Target::Async(aw)
+        } else {
+            let w = build(&base_cfg);
+            // parent directory / lower-layer file
+            if o.depth == 2 {
+                if o.lower_file && w.layers.len() > 1 {
+                    cx.path(&w.layers[w.layers.len() - 1].root, &path[..1].to_vec()).create_dir().unwrap();
+                } else {
+                    cx.path(&w.root, &path[..1].to_vec()).create_dir().unwrap();
+                }
+            }
             if o.lower_file && w.layers.len() > 1 {
-                cx.path(&w.layers[w.layers.len() - 1].root, &path[..1].to_vec()).create_dir().unwrap();
-            } else {
-                cx.path(&w.root, &path[..1].to_vec()).create_dir().unwrap();
+                let d = vec![2i64, 1];
+                let lp = cx.path(&w.layers[w.layers.len() - 1].root, &path);
+                lp.create_file().unwrap().write_all(&conc_bytes(&d, o.b)).unwrap();
+                file0 = json!({"ex":true,"d":d});
+                // the LTS state "file exists with bytes d, no handle open"
+                let key = lts.states.iter().position(|s| s["ex"] == true && s["file"] == json!(d) && s["w"]["open"] == false && s["r"]["open"] == false && s["w"]["det"] == false);
+                match key {
+                    Some(k) => cur = k,
+                    None => continue,
+                }
             }
-        }
-        if o.lower_file && w.layers.len() > 1 {
-            let d = vec![2i64, 1];
-            let lp = cx.path(&w.layers[w.layers.len() - 1].root, &path);
-            lp.create_file().unwrap().write_all(&conc_bytes(&d, o.b)).unwrap();
-            file0 = json!({"ex":true,"d":d});
-            // the LTS state "file exists with bytes d, no handle open"
-            let key = lts.states.iter().position(|s| s["ex"] == true && s["file"] == json!(d) && s["w"]["open"] == false && s["r"]["open"] == false && s["w"]["det"] == false);
-            match key {
-                Some(k) => cur = k,
-                None => continue,
-            }
-        }
+            Target::Sync(w)
+        };
         let mut ctx = Ctx { w, cx, path: path.clone(), wh: None, rh: None };
         out.begin(&json!({"ev":"hinit","cfg":o.cfg,"names":o.names,"b":o.b,"path":path,"file0":file0}));
         for step in 0..o.len {
@@ -338,8 +417,10 @@ pub fn run(lts: &HLts, o: &HOpts) -> Value {
             let cand: Vec<usize> = (0..lts.edges[cur].len())
                 .filter(|&i| {
                     let e = &lts.edges[cur][i];
-                    // O_APPEND semantics differ by design: no seeks on append handles of physical files
-                    !(phys && app && e.o["op"] == "seek_w")
+                    // O_APPEND semantics differ by design: no seeks on append handles of physical files;
+                    // the async port's write handles are Write only
+                    !(phys && app && e.o["op"] == "seek_w") && !(is_async && e.o["op"] == "seek_w")
+                        && !(o.no_zero_read && e.o["op"] == "read" && e.o["n"] == 0)
                 })
                 .collect();
             if cand.is_empty() {
